@@ -1,7 +1,652 @@
-/* lvh_dump.h -- canonical dump of compiled tables (DUMP op). */
+/* lvh_dump.h -- canonical, offset-free dump of a compiled table (DUMP op) and of a
+ * display table (DISPDUMP op), and the raw object list for the C12 checker (RAWDUMP).
+ *
+ * DUMP <list>  prints one line:
+ *   T <numPasses> <corrections> <finalized> <usesSequences> <usesNumericMode> <capsNoCont> <syllables>
+ *     <undefined> <letterSign> <numberSign> <noContractSign> <noNumberSign> <begComp> <endComp> <hyph 0|1>
+ *     <ruleCounter>
+ *   | E <class> <slot> <rule>            emphRules[class][slot] (only non-zero)
+ *   | R <index> <opcode> <chars> <dots> <after> <before> <nocross> <hasPatterns>
+ *   | C <value> <attrs> <mode> <def> <comp> <base> <chain of rule indices via charsnext>   (in bucket order)
+ *   | D <value> <attrs> <def> <chain of rule indices via dotsnext>
+ *   | F <hash> <chain>    forRules bucket        | B <hash> <chain>   backRules bucket
+ *   | FP <pass> <chain>   forPassRules[pass]     | BP <pass> <chain>  backPassRules[pass]
+ * Rules are identified by their `index` (sequence number within the table); -1 = null offset.
+ * Every rule reachable from any chain / slot is listed once under R, sorted by index. */
+
+#include <stddef.h>
+#define DUMP_MAXRULES 200000
+
+static const TranslationTableRule **dumpRules;
+static int dumpNRules;
+
+static int
+ruleIdx(const TranslationTableHeader *t, TranslationTableOffset off) {
+	const TranslationTableRule *r;
+	int i;
+	if (!off) return -1;
+	r = (const TranslationTableRule *)&t->ruleArea[off];
+	for (i = 0; i < dumpNRules; i++)
+		if (dumpRules[i] == r) return r->index;
+	if (dumpNRules < DUMP_MAXRULES) dumpRules[dumpNRules++] = r;
+	return r->index;
+}
+
+static void
+printChain(const TranslationTableHeader *t, TranslationTableOffset off, int viaDots) {
+	int first = 1, guard = 0;
+	if (!off) {
+		printf(".");
+		return;
+	}
+	while (off && guard++ < 100000) {
+		const TranslationTableRule *r = (const TranslationTableRule *)&t->ruleArea[off];
+		printf(first ? "%d" : ",%d", ruleIdx(t, off));
+		first = 0;
+		off = viaDots ? r->dotsnext : r->charsnext;
+	}
+	if (off) printf(",LOOP");
+}
+
+static int
+cmpRuleIdx(const void *a, const void *b) {
+	const TranslationTableRule *x = *(const TranslationTableRule *const *)a;
+	const TranslationTableRule *y = *(const TranslationTableRule *const *)b;
+	return (x->index > y->index) - (x->index < y->index);
+}
+
+static void
+dumpTable(const TranslationTableHeader *t) {
+	int i, k;
+	/* two phases: first print everything that references rules into a memory stream so
+	 * that the rule set is known, then print T, R records, then the buffered part */
+	char *buf = NULL;
+	size_t blen = 0;
+	FILE *mem = open_memstream(&buf, &blen);
+	FILE *saved = stdout;
+	dumpRules = malloc(sizeof(*dumpRules) * DUMP_MAXRULES);
+	dumpNRules = 0;
+	stdout = mem;
+	for (i = 0; i < MAX_EMPH_CLASSES + MAX_MODES; i++)
+		for (k = 0; k < 9; k++)
+			if (t->emphRules[i][k]) {
+				if (k == lenPhraseOffset) /* holds a number, not an offset */
+					printf(" | E %d %d n%u", i, k, t->emphRules[i][k]);
+				else
+					printf(" | E %d %d %d", i, k, ruleIdx(t, t->emphRules[i][k]));
+			}
+	for (i = 0; i < HASHNUM; i++) {
+		TranslationTableOffset off = t->characters[i];
+		while (off) {
+			const TranslationTableCharacter *c =
+					(const TranslationTableCharacter *)&t->ruleArea[off];
+			printf(" | C %04x %llx %llx %d %d ", c->value, (unsigned long long)c->attributes,
+					(unsigned long long)c->mode, ruleIdx(t, c->definitionRule),
+					ruleIdx(t, c->compRule));
+			if (c->basechar)
+				printf("%04x ",
+						((const TranslationTableCharacter *)&t->ruleArea[c->basechar])->value);
+			else
+				printf("- ");
+			printChain(t, c->otherRules, 0);
+			off = c->next;
+		}
+	}
+	for (i = 0; i < HASHNUM; i++) {
+		TranslationTableOffset off = t->dots[i];
+		while (off) {
+			const TranslationTableCharacter *c =
+					(const TranslationTableCharacter *)&t->ruleArea[off];
+			printf(" | D %04x %llx %d ", c->value, (unsigned long long)c->attributes,
+					ruleIdx(t, c->definitionRule));
+			printChain(t, c->otherRules, 1);
+			off = c->next;
+		}
+	}
+	for (i = 0; i < HASHNUM; i++)
+		if (t->forRules[i]) {
+			printf(" | F %d ", i);
+			printChain(t, t->forRules[i], 0);
+		}
+	for (i = 0; i < HASHNUM; i++)
+		if (t->backRules[i]) {
+			printf(" | B %d ", i);
+			printChain(t, t->backRules[i], 1);
+		}
+	for (i = 0; i <= MAXPASS; i++)
+		if (t->forPassRules[i]) {
+			printf(" | FP %d ", i);
+			printChain(t, t->forPassRules[i], 0);
+		}
+	for (i = 0; i <= MAXPASS; i++)
+		if (t->backPassRules[i]) {
+			printf(" | BP %d ", i);
+			printChain(t, t->backPassRules[i], 1);
+		}
+	{
+		int u = ruleIdx(t, t->undefined), ls = ruleIdx(t, t->letterSign),
+			ns = ruleIdx(t, t->numberSign), nc = ruleIdx(t, t->noContractSign),
+			nn = ruleIdx(t, t->noNumberSign), bc = ruleIdx(t, t->begComp),
+			ec = ruleIdx(t, t->endComp);
+		fflush(mem);
+		stdout = saved;
+		printf("T %d %d %d %d %d %d %d %d %d %d %d %d %d %d %d %d", t->numPasses,
+				t->corrections ? 1 : 0, t->finalized, t->usesSequences, t->usesNumericMode,
+				t->capsNoCont, t->syllables, u, ls, ns, nc, nn, bc, ec,
+				t->hyphenStatesArray ? 1 : 0, t->ruleCounter);
+	}
+	fclose(mem);
+	qsort(dumpRules, dumpNRules, sizeof(*dumpRules), cmpRuleIdx);
+	for (i = 0; i < dumpNRules; i++) {
+		const TranslationTableRule *r = dumpRules[i];
+		printf(" | R %d %d ", r->index, (int)r->opcode);
+		printWide(r->charsdots, r->charslen);
+		printf(" ");
+		printWide(r->charsdots + r->charslen, r->dotslen);
+		printf(" %llx %llx %d %d", (unsigned long long)r->after, (unsigned long long)r->before,
+				(int)r->nocross, r->patterns ? 1 : 0);
+	}
+	fputs(buf, stdout);
+	free(buf);
+	free(dumpRules);
+	dumpRules = NULL;
+}
+
+static void
+dumpDisplay(const DisplayTableHeader *d) {
+	int i, first = 1;
+	printf("DD c2d=");
+	for (i = 0; i < HASHNUM; i++) {
+		TranslationTableOffset off = d->charToDots[i];
+		while (off) {
+			const CharDotsMapping *m = (const CharDotsMapping *)&d->ruleArea[off];
+			printf(first ? "%04x:%04x" : ",%04x:%04x", m->lookFor, m->found);
+			first = 0;
+			off = m->next;
+		}
+	}
+	if (first) printf(".");
+	first = 1;
+	printf(" d2c=");
+	for (i = 0; i < HASHNUM; i++) {
+		TranslationTableOffset off = d->dotsToChar[i];
+		while (off) {
+			const CharDotsMapping *m = (const CharDotsMapping *)&d->ruleArea[off];
+			printf(first ? "%04x:%04x" : ",%04x:%04x", m->lookFor, m->found);
+			first = 0;
+			off = m->next;
+		}
+	}
+	if (first) printf(".");
+}
+
+/* ------------------------------------------------------------------ RAWDUMP (C12)
+ * RAWDUMP <list> [nofinal]  prints one line, two parts separated by " || ":
+ *   RAW t <sizeof(TranslationTableHeader)> <bytesUsed> <tableSize> <ruleBaseSize> <sizeof char record>
+ *   RAW d <sizeof(DisplayTableHeader)> <bytesUsed> <tableSize> 0 <sizeof(CharDotsMapping)>
+ * each followed by records
+ *   | r <kind> <offset> <needed bytes> <opcode (rule kinds) | 0> <expect: 0 any, 1 grouping rule, 2 swap rule> <via>
+ *       one record per stored reference (non-null offset field of the image; embedded pass
+ *       references also when 0).  kind: rule char dots pattern hstates htrans hpattern cdmap.
+ *       <offset> is in TranslationTableOffset units (8 bytes from ruleArea), <needed> is what the
+ *       layout of the designated object needs, computed from the object's own contents.
+ *   | L <value> <value>      character record `value` has `linked` = the record of the second value
+ *   | X <what> <detail...>   anomaly met while walking (reference outside the used part, chain that
+ *       does not end, pass program that does not decode, pattern node / hyphenation state out of range)
+ * The walk follows exactly the references DUMP follows, plus pass programs, patterns, hyphenation
+ * and the display maps.  Every read is bounds-checked against the used part of the image first. */
+
+static const unsigned char *rawBase;   /* start of the image (header) */
+static unsigned int rawHdr, rawUsed;
+static unsigned int rawArea;           /* offsetof(header, ruleArea) = sizeof(header) - 8: ruleArea[0] is the
+                                        * last 8 bytes of the header, so the object with offset `off` starts at
+                                        * byte sizeof(header) - 8 + 8*off and the allocator's bytesUsed runs 8
+                                        * bytes ahead of the real end of the used part.  Bounds are checked in
+                                        * the allocator's own coordinates (sizeof(header) + 8*off .. bytesUsed). */
+static unsigned char *rawSeen;         /* per offset unit: rule already decoded */
+
+static int
+rawIn(TranslationTableOffset off, unsigned int bytes) {
+	unsigned long long start = (unsigned long long)rawHdr + 8ULL * off;
+	return off != 0 && start + bytes <= rawUsed;
+}
+
+static const void *
+rawAt(TranslationTableOffset off) {
+	return rawBase + rawArea + 8UL * off;
+}
+
+#define RULEBASE ((int)(sizeof(TranslationTableRule) - DEFAULTRULESIZE * CHARSIZE))
+
+static void
+rawRef(const char *kind, TranslationTableOffset off, long needed, int opcode, int expect,
+		const char *via) {
+	printf(" | r %s %u %ld %d %d %s", kind, off, needed, opcode, expect, via);
+}
+
+static void rawRule(TranslationTableOffset off, int expect, const char *via);
+
+static void
+rawPassProgram(TranslationTableOffset owner, const TranslationTableRule *r) {
+	const widechar *ins = r->charsdots + r->charslen;
+	int n = r->dotslen, ic = 0, action = 0;
+	while (ic < n) {
+		widechar op = ins[ic];
+		int len = 0, isref = 0, expect = 0;
+		if (!action) {
+			switch (op) {
+			case pass_first:
+			case pass_last:
+			case pass_not:
+			case pass_search:
+			case pass_startReplace:
+			case pass_endReplace:
+				len = 1;
+				break;
+			case pass_endTest:
+				len = 1;
+				break;
+			case pass_lookback:
+				len = 2;
+				break;
+			case pass_string:
+			case pass_dots:
+				len = (ic + 1 < n) ? ins[ic + 1] + 2 : n + 1;
+				break;
+			case pass_attributes:
+				len = 7;
+				break;
+			case pass_groupstart:
+			case pass_groupend:
+				len = 3;
+				isref = 1;
+				expect = 1;
+				break;
+			case pass_swap:
+				len = 5;
+				isref = 1;
+				expect = 2;
+				break;
+			case pass_eq:
+			case pass_lt:
+			case pass_gt:
+			case pass_lteq:
+			case pass_gteq:
+				len = 3;
+				break;
+			default:
+				len = 0;
+			}
+		} else {
+			switch (op) {
+			case pass_string:
+			case pass_dots:
+				len = (ic + 1 < n) ? ins[ic + 1] + 2 : n + 1;
+				break;
+			case pass_eq:
+				len = 3;
+				break;
+			case pass_plus:
+			case pass_hyphen:
+				len = 2;
+				break;
+			case pass_copy:
+			case pass_omit:
+				len = 1;
+				break;
+			case pass_groupreplace:
+			case pass_groupstart:
+			case pass_groupend:
+				len = 3;
+				isref = 1;
+				expect = 1;
+				break;
+			case pass_swap:
+				len = 3;
+				isref = 1;
+				expect = 2;
+				break;
+			default:
+				len = 0;
+			}
+		}
+		if (len == 0 || ic + len > n) {
+			printf(" | X passdecode %u %d %d %d", owner, action, ic, (int)op);
+			return;
+		}
+		if (isref) {
+			TranslationTableOffset target = ((TranslationTableOffset)ins[ic + 1] << 16) | ins[ic + 2];
+			rawRule(target, expect, expect == 1 ? "passref:grouping" : "passref:swap");
+		}
+		if (!action && op == pass_endTest) action = 1;
+		ic += len;
+	}
+	/* a program without pass_endTest is possible (run-time addition of `context "a @1`: the unterminated
+	 * string swallows the separator; the error is logged but the rule is added) and harmless to the
+	 * image: passDoTest leaves its loop at dotslen */
+}
+
+static void
+rawPattern(TranslationTableOffset owner, TranslationTableOffset off) {
+	/* patterns[0] = index of the second expression; each expression starts with its length */
+	const widechar *p;
+	unsigned int mrk, len2, total, k;
+	if (!rawIn(off, 2 * sizeof(widechar))) {
+		printf(" | X oob pattern %u rule:patterns", off);
+		rawRef("pattern", off, 0, 0, 0, "rule:patterns");
+		return;
+	}
+	p = rawAt(off);
+	mrk = p[0];
+	if (mrk < 1 || !rawIn(off, (mrk + 1) * sizeof(widechar))) {
+		printf(" | X oob pattern %u rule:patterns:mark", off);
+		rawRef("pattern", off, 2L * (mrk + 1), 0, 0, "rule:patterns");
+		return;
+	}
+	len2 = p[mrk];
+	total = mrk + len2;
+	rawRef("pattern", off, 2L * total, 0, 0, "rule:patterns");
+	if (!rawIn(off, total * sizeof(widechar))) {
+		printf(" | X oob pattern %u rule:patterns:len", off);
+		return;
+	}
+	/* node links of both expressions stay inside their expression */
+	for (k = 0; k < 2; k++) {
+		const widechar *e = k ? p + mrk : p + 1;
+		unsigned int elen = k ? len2 : mrk - 1;
+		unsigned int at = 2, guard = 0;
+		if (elen != e[0] || elen < 5) {
+			printf(" | X patternnode %u %u len %u %u", owner, k, elen, (unsigned)e[0]);
+			continue;
+		}
+		/* linear scan of the top-level list through NXT */
+		while (guard++ < elen) {
+			if (at + 3 > elen) {
+				printf(" | X patternnode %u %u at %u %u", owner, k, at, elen);
+				break;
+			}
+			if (e[at] == 0xffff) break; /* PTN_END */
+			at = e[at + 2];
+		}
+		if (guard > elen) printf(" | X patternnode %u %u loop %u", owner, k, elen);
+	}
+}
+
+static void
+rawRule(TranslationTableOffset off, int expect, const char *via) {
+	const TranslationTableRule *r;
+	long needed;
+	if (off == 0) { /* only embedded pass references are reported when null */
+		rawRef("rule", 0, 0, 0, expect, via);
+		return;
+	}
+	if (!rawIn(off, RULEBASE)) {
+		printf(" | X oob rule %u %s", off, via);
+		rawRef("rule", off, RULEBASE, 0, expect, via);
+		return;
+	}
+	r = rawAt(off);
+	needed = RULEBASE + (long)CHARSIZE * ((long)r->charslen + (long)r->dotslen);
+	rawRef("rule", off, needed, (int)r->opcode, expect, via);
+	if (r->charslen < 0 || r->dotslen < 0 || !rawIn(off, needed)) {
+		printf(" | X oob rule %u %s:body", off, via);
+		return;
+	}
+	if (rawSeen[off]) return;
+	rawSeen[off] = 1;
+	if (r->patterns) rawPattern(off, r->patterns);
+	if (r->opcode >= CTO_Context && r->opcode <= CTO_Pass4) rawPassProgram(off, r);
+}
+
+/* walk a rule chain; returns nothing, reports a chain that does not end */
+static void
+rawChain(TranslationTableOffset off, int viaDots, const char *headVia) {
+	unsigned int guard = 0, limit = rawUsed / 8 + 2;
+	const char *via = headVia;
+	while (off) {
+		const TranslationTableRule *r;
+		rawRule(off, 0, via);
+		if (!rawIn(off, RULEBASE)) return;
+		if (++guard > limit) {
+			printf(" | X loop rulechain %u %s", off, headVia);
+			return;
+		}
+		r = rawAt(off);
+		off = viaDots ? r->dotsnext : r->charsnext;
+		via = viaDots ? "next:dots" : "next:chars";
+	}
+}
+
+static void
+rawCharBuckets(const TranslationTableOffset *buckets, int isDots) {
+	int i;
+	const char *kind = isDots ? "dots" : "char";
+	for (i = 0; i < HASHNUM; i++) {
+		TranslationTableOffset off = buckets[i];
+		const char *via = isDots ? "bucket:dots" : "bucket:chars";
+		unsigned int guard = 0, limit = rawUsed / 8 + 2;
+		while (off) {
+			const TranslationTableCharacter *c;
+			rawRef(kind, off, sizeof(TranslationTableCharacter), 0, 0, via);
+			if (!rawIn(off, sizeof(TranslationTableCharacter))) {
+				printf(" | X oob %s %u %s", kind, off, via);
+				break;
+			}
+			if (++guard > limit) {
+				printf(" | X loop charchain %u %s", off, via);
+				break;
+			}
+			c = rawAt(off);
+			if (c->definitionRule) rawRule(c->definitionRule, 0, isDots ? "dots:def" : "char:def");
+			if (!isDots && c->compRule) rawRule(c->compRule, 0, "char:comp");
+			if (!isDots && c->basechar)
+				rawRef("char", c->basechar, sizeof(TranslationTableCharacter), 0, 0, "char:base");
+			if (!isDots && c->linked) {
+				rawRef("char", c->linked, sizeof(TranslationTableCharacter), 0, 0, "char:linked");
+				/* L <value> <value of the linked character>: what toLowercase walks (DUMP omits it) */
+				if (rawIn(c->linked, sizeof(TranslationTableCharacter)))
+					printf(" | L %04x %04x", c->value,
+							((const TranslationTableCharacter *)rawAt(c->linked))->value);
+			}
+			rawChain(c->otherRules, isDots, isDots ? "dots:other" : "char:other");
+			off = c->next;
+			via = isDots ? "next:dotsrec" : "next:charrec";
+		}
+	}
+}
+
+static void
+rawHyphenation(const TranslationTableHeader *t) {
+	TranslationTableOffset base = t->hyphenStatesArray;
+	unsigned int n = 1, i;
+	const HyphenationState *st;
+	if (!base) return;
+	if (!rawIn(base, sizeof(HyphenationState))) {
+		printf(" | X oob hstates %u hyph:states", base);
+		rawRef("hstates", base, sizeof(HyphenationState), 0, 0, "hyph:states");
+		return;
+	}
+	st = rawAt(base);
+	/* every state is reached from state 0 through transitions (the states form a trie) */
+	for (i = 0; i < n; i++) {
+		unsigned int k;
+		if (!rawIn(base, (i + 1) * sizeof(HyphenationState))) {
+			printf(" | X oob hstates %u hyph:states:%u", base, i);
+			break;
+		}
+		if (st[i].hyphenPattern) {
+			TranslationTableOffset po = st[i].hyphenPattern;
+			if (!rawIn(po, 1)) {
+				printf(" | X oob hpattern %u hyph:pattern", po);
+				rawRef("hpattern", po, 1, 0, 0, "hyph:pattern");
+			} else {
+				const char *s = rawAt(po);
+				unsigned int room = rawUsed - (rawHdr + 8 * po), l = 0;
+				while (l < room && s[l]) l++;
+				if (l == room) printf(" | X oob hpattern %u hyph:pattern:unterminated", po);
+				rawRef("hpattern", po, (long)l + 1, 0, 0, "hyph:pattern");
+			}
+		}
+		if (st[i].fallbackState != 0xffffffffu && st[i].fallbackState >= n &&
+				!rawIn(base, ((unsigned long)st[i].fallbackState + 1) * sizeof(HyphenationState)))
+			printf(" | X hstate fallback %u %u", i, st[i].fallbackState);
+		if (st[i].numTrans) {
+			TranslationTableOffset to = st[i].trans.offset;
+			rawRef("htrans", to, (long)st[i].numTrans * sizeof(HyphenationTrans), 0, 0, "hyph:trans");
+			if (!rawIn(to, st[i].numTrans * sizeof(HyphenationTrans))) {
+				printf(" | X oob htrans %u hyph:trans", to);
+				continue;
+			}
+			{
+				const HyphenationTrans *tr = rawAt(to);
+				for (k = 0; k < st[i].numTrans; k++)
+					if (tr[k].newState >= n) {
+						if (tr[k].newState > rawUsed / sizeof(HyphenationState)) {
+							printf(" | X hstate newstate %u %u", i, tr[k].newState);
+							continue;
+						}
+						n = tr[k].newState + 1;
+					}
+			}
+		}
+	}
+	for (i = 0; i < n && rawIn(base, (i + 1) * sizeof(HyphenationState)); i++)
+		if (st[i].fallbackState != 0xffffffffu && st[i].fallbackState >= n)
+			printf(" | X hstate fallback %u %u", i, st[i].fallbackState);
+	rawRef("hstates", base, (long)n * sizeof(HyphenationState), 0, 0, "hyph:states");
+}
+
+static void
+rawDumpTable(const TranslationTableHeader *t) {
+	int i, k;
+	rawBase = (const unsigned char *)t;
+	rawHdr = sizeof(TranslationTableHeader);
+	rawArea = offsetof(TranslationTableHeader, ruleArea);
+	rawUsed = t->bytesUsed;
+	rawSeen = calloc(t->tableSize / 8 + 2, 1);
+	printf("RAW t %u %u %u %d %d", rawHdr, t->bytesUsed, t->tableSize, RULEBASE,
+			(int)sizeof(TranslationTableCharacter));
+	if (t->bytesUsed > t->tableSize) rawUsed = t->tableSize;
+	for (i = 0; i < MAX_EMPH_CLASSES + MAX_MODES; i++)
+		for (k = 0; k < 9; k++)
+			if (t->emphRules[i][k] && k != lenPhraseOffset) rawRule(t->emphRules[i][k], 0, "slot:emph");
+	rawCharBuckets(t->characters, 0);
+	rawCharBuckets(t->dots, 1);
+	for (i = 0; i < HASHNUM; i++) rawChain(t->forRules[i], 0, "bucket:for");
+	for (i = 0; i < HASHNUM; i++) rawChain(t->backRules[i], 1, "bucket:back");
+	for (i = 0; i <= MAXPASS; i++) rawChain(t->forPassRules[i], 0, "bucket:forpass");
+	for (i = 0; i <= MAXPASS; i++) rawChain(t->backPassRules[i], 1, "bucket:backpass");
+	if (t->undefined) rawRule(t->undefined, 0, "slot:undefined");
+	if (t->letterSign) rawRule(t->letterSign, 0, "slot:letterSign");
+	if (t->numberSign) rawRule(t->numberSign, 0, "slot:numberSign");
+	if (t->noContractSign) rawRule(t->noContractSign, 0, "slot:noContractSign");
+	if (t->noNumberSign) rawRule(t->noNumberSign, 0, "slot:noNumberSign");
+	if (t->begComp) rawRule(t->begComp, 0, "slot:begComp");
+	if (t->endComp) rawRule(t->endComp, 0, "slot:endComp");
+	if (t->capsNoCont) rawRule((TranslationTableOffset)t->capsNoCont, 0, "slot:capsNoCont");
+	rawHyphenation(t);
+	free(rawSeen);
+	rawSeen = NULL;
+}
+
+static void
+rawDumpDisplay(const DisplayTableHeader *d) {
+	int i, side;
+	rawBase = (const unsigned char *)d;
+	rawHdr = sizeof(DisplayTableHeader);
+	rawArea = offsetof(DisplayTableHeader, ruleArea);
+	rawUsed = d->bytesUsed > d->tableSize ? d->tableSize : d->bytesUsed;
+	printf("RAW d %u %u %u 0 %d", rawHdr, d->bytesUsed, d->tableSize, (int)sizeof(CharDotsMapping));
+	for (side = 0; side < 2; side++)
+		for (i = 0; i < HASHNUM; i++) {
+			TranslationTableOffset off = side ? d->dotsToChar[i] : d->charToDots[i];
+			const char *via = side ? "disp:d2c" : "disp:c2d";
+			unsigned int guard = 0, limit = rawUsed / 8 + 2;
+			while (off) {
+				rawRef("cdmap", off, sizeof(CharDotsMapping), 0, 0, via);
+				if (!rawIn(off, sizeof(CharDotsMapping))) {
+					printf(" | X oob cdmap %u %s", off, via);
+					break;
+				}
+				if (++guard > limit) {
+					printf(" | X loop cdmapchain %u %s", off, via);
+					break;
+				}
+				off = ((const CharDotsMapping *)rawAt(off))->next;
+				via = "disp:next";
+			}
+		}
+}
+
 static int
 doDumpOp(char **tok, int ntok) {
-	(void)tok;
-	(void)ntok;
+	if (!strcmp(tok[0], "DUMP") && ntok >= 2) {
+		const TranslationTableHeader *t;
+		resetLogCounts();
+		/* nofinal: dump without finalising (for run-time additions) */
+		if (ntok >= 3 && !strcmp(tok[2], "nofinal")) {
+			TranslationTableHeader *tt = NULL;
+			extern void getTable(const char *, const char *, TranslationTableHeader **,
+					DisplayTableHeader **);
+			getTable(tok[1], NULL, &tt, NULL);
+			t = tt;
+		} else
+			t = _lou_getTranslationTable(tok[1]);
+		if (!t)
+			printf("T null");
+		else
+			dumpTable(t);
+		printLogSuffix();
+		printf("\n");
+		return 1;
+	}
+	if (!strcmp(tok[0], "RAWDUMP") && ntok >= 2) {
+		TranslationTableHeader *tt = NULL;
+		DisplayTableHeader *dd = NULL;
+		extern void getTable(const char *, const char *, TranslationTableHeader **,
+				DisplayTableHeader **);
+		resetLogCounts();
+		if (ntok >= 3 && !strcmp(tok[2], "nofinal"))
+			getTable(tok[1], tok[1], &tt, &dd);
+		else {
+			const TranslationTableHeader *ct = NULL;
+			const DisplayTableHeader *cd = NULL;
+			_lou_getTable(tok[1], tok[1], &ct, &cd);
+			tt = (TranslationTableHeader *)ct;
+			dd = (DisplayTableHeader *)cd;
+		}
+		if (!tt)
+			printf("RAW t null");
+		else
+			rawDumpTable(tt);
+		printf(" || ");
+		if (!dd)
+			printf("RAW d null");
+		else
+			rawDumpDisplay(dd);
+		printLogSuffix();
+		printf("\n");
+		return 1;
+	}
+	if (!strcmp(tok[0], "DISPDUMP") && ntok >= 2) {
+		const DisplayTableHeader *d;
+		resetLogCounts();
+		d = _lou_getDisplayTable(tok[1]);
+		if (!d)
+			printf("DD null");
+		else
+			dumpDisplay(d);
+		printLogSuffix();
+		printf("\n");
+		return 1;
+	}
+	if (!strcmp(tok[0], "TINFO") && ntok >= 2) {
+		const TranslationTableHeader *t = _lou_getTranslationTable(tok[1]);
+		if (!t)
+			printf("TI null\n");
+		else
+			printf("TI %d %d\n", t->corrections ? 1 : 0, t->numPasses);
+		return 1;
+	}
 	return 0;
 }
